@@ -60,10 +60,10 @@ def run_huge(pid, wdir, violations):
     return cov
 
 
-def replay_fuzz(binpath, path, timeout=30):
+def replay_fuzz(binpath, path, timeout=30, unit_timeout=10):
     """returns (fails, output, timed_out)"""
     try:
-        r = subprocess.run([binpath, "-timeout=10", "-rss_limit_mb=4096", path], stdout=subprocess.PIPE, stderr=subprocess.STDOUT, env=sanitizer_env(), timeout=timeout, text=True, errors="replace")
+        r = subprocess.run([binpath, "-timeout=%d" % unit_timeout, "-rss_limit_mb=4096", path], stdout=subprocess.PIPE, stderr=subprocess.STDOUT, env=sanitizer_env(), timeout=timeout, text=True, errors="replace")
     except subprocess.TimeoutExpired:
         return True, "replay did not terminate within %ds" % timeout, True
     hung = "libFuzzer: timeout" in r.stdout
@@ -176,8 +176,10 @@ def run(pid, tier, cfg):
         h = hashlib.sha1(data).hexdigest()[:12]
         ok = True
         last = ""
-        for _ in range(3):
-            fails, out, timed_out = replay_fuzz(bins[fz], a, timeout=30)
+        for _ in range(3 if kind != "timeout" else 2):
+            # a hang must survive a replay with a generous limit: slow but terminating reads (work proportional to a
+            # declared count) are load noise, not violations
+            fails, out, timed_out = replay_fuzz(bins[fz], a, timeout=30) if kind != "timeout" else replay_fuzz(bins[fz], a, timeout=200, unit_timeout=150)
             last = out
             if not fails or (kind == "timeout" and not timed_out):
                 ok = False
